@@ -204,6 +204,14 @@ def run(ctx):
     ctx.extra["exhaustive_part"] = ("every gap of at most %d items over {newline, line comment, one-line block comment, two-line block comment} "
                                     "between two fields, before a closing brace, before an empty statement (%d files), a sample of them at the end of the file"
                                     % (ctx.budget(3, 4), len(exh)))
+    edge = S.edge_sources(ctx.budget(3, 4))
+    cases += [{"mode": "compile", "text": c.hex()} for c in edge]
+    ctx.extra["file_ends_part"] = ("the same gap shapes at the two ends of a file: between the last top-level statement ending with a semicolon "
+                                   "(syntax, edition, package, import, option) and the end of the file, ended in every way (final newline, none - a line "
+                                   "comment ended by the end of the file -, blanks or a lone carriage return only, CRLF, blank lines), before the first "
+                                   "declaration of each kind (no previous token; LF, CRLF, byte order mark), as the whole file, and the in-body "
+                                   "arrangements of at most two items in a CRLF file (%d files)" % len(edge))
+    nsystematic = len(cases)
     nfiles = ctx.budget(50, 800)
     for i in range(nfiles):
         b, src = bases[i % len(bases)]
@@ -215,13 +223,17 @@ def run(ctx):
     ctx.rule = ("golden part: every gap of the three protoc golden files that protoc reads with NextWithComments; generated part: the token "
                 "sequences of %d accepted sources (hand-written files covering every declaration kind, repository testdata) re-rendered with "
                 "random whitespace and comments between the tokens (line and block comments, multi-line blocks with and without asterisks, blank "
-                "lines, tabs, multi-byte characters, CRLF files, comments before closers and at the end of the file, byte order mark), plus a "
-                "corpus of edge cases; one case = one gap with its observed comments; distinct = distinct (gap bytes, neighbours, observation); "
+                "lines, tabs, multi-byte characters, CRLF files, comments before closers and at the end of the file, byte order mark; some of the "
+                "sources end with the semicolon of a top-level statement, so that the comments before the end of the file are observable), plus "
+                "the exhaustive small gap shapes in the body and at the two ends of the file, plus a corpus of edge cases; one case = one gap with its observed comments; distinct = distinct (gap bytes, neighbours, observation); "
                 "non-trivial = the gap holds a comment" % len(bases))
     go_terms, go_meta, sp_terms, sp_meta = [], [], [], []
     seen = set()
     nfail = 0
-    for c, o in zip(cases, couts):
+    keep_go = keep_sp = None
+    for ci, (c, o) in enumerate(zip(cases, couts)):
+        if ci == nsystematic:
+            keep_go, keep_sp = len(go_terms), len(sp_terms)
         text = bytes.fromhex(c["text"])
         if "locs" not in o:
             nfail += 1
@@ -278,15 +290,17 @@ def run(ctx):
     ctx.extra["generated_sources_rejected"] = nfail
     ctx.sample({"source": bytes.fromhex(cases[len(CORPUS)]["text"])[:400].decode("utf8", "replace")})
     ctx.sample({"source": CORPUS[3].decode()})
-    def cap(terms, meta, n):
-        # the corpus comes first and is always kept; the rest is sampled
-        keep = min(len(terms), 1400)
-        if len(terms) <= n:
+    def cap(terms, meta, keep, n):
+        # the systematic part (corpus, exhaustive small shapes in the body and at the two ends of the file) comes
+        # first and is always kept whole; the randomly generated rest is sampled down to n
+        keep = len(terms) if keep is None else keep
+        if len(terms) - keep <= n:
             return terms, meta
-        idx = list(range(keep)) + sorted(rng.shuffle(list(range(keep, len(terms))))[:n - keep])
+        idx = list(range(keep)) + sorted(rng.shuffle(list(range(keep, len(terms))))[:n])
         return [terms[i] for i in idx], [meta[i] for i in idx]
-    go_terms, go_meta = cap(go_terms, go_meta, ctx.budget(5500, 10 ** 9))
-    sp_terms, sp_meta = cap(sp_terms, sp_meta, ctx.budget(3500, 10 ** 9))
+    ctx.extra["systematic_cases (model vs implementation, direct oracle)"] = [keep_go, keep_sp]
+    go_terms, go_meta = cap(go_terms, go_meta, keep_go, ctx.budget(4100, 10 ** 9))
+    sp_terms, sp_meta = cap(sp_terms, sp_meta, keep_sp, ctx.budget(2100, 10 ** 9))
     ctx.extra["model_vs_implementation_cases"] = len(go_terms)
     for t, m in zip(go_terms, go_meta):
         allterms.append(("go", "(CGo %s)" % t, m))
@@ -319,6 +333,14 @@ def run(ctx):
         keys = sorted(S.classify(k > 0, g["items"], g["nxt"]))
         st, sd, sl = S.spec_out(k > 0, g["items"], g["nxt"])
         key = keys[0] if keys and keys[0] in KNOWN_KEYS else "comment-attribution-differs-from-protoc"
+        if key not in KNOWN_KEYS:
+            # name the case in which the comments are given to the right fields and only the newline that ends a
+            # line comment is present / absent (protoc keeps it exactly when it is in the source)
+            cut = lambda x: None if x is None else x.rstrip(b"\n")
+            same_t = texp is None or cut(texp[0]) == cut(st)
+            same_d = dexp is None or ([cut(x) for x in dexp[0]] == [cut(x) for x in sd] and cut(dexp[1]) == cut(sl))
+            if same_t and same_d:
+                key = "line-comment-final-newline-differs-from-protoc"
         text = bytes.fromhex(c["text"])
         ctx.violation(key, "the comments of a location differ from what protoc attaches at this gap",
                       {"source_hex": c["text"], "source": text.decode("utf8", "replace"),
